@@ -239,8 +239,12 @@ func stimString(st Stim) string {
 			}
 			return []string{"true", "closes-own-subscriber", "closes-publication"}[act]
 		}
-		return fmt.Sprintf("Subscribe(cap=%d,filter=%s,timeout=%dms,onFiltered=%s,onTimeout=%s)", st.Cap, fcodeCoq(st),
-			tmoTicks[st.Tmo]*int(tickDur.Milliseconds()), cb(st.OnF, st.CbF), cb(st.OnT, st.CbT))
+		slow := ""
+		if st.Slow > 0 {
+			slow = fmt.Sprintf(",filterTakes=%dms", st.Slow)
+		}
+		return fmt.Sprintf("Subscribe(cap=%d,filter=%s%s,timeout=%dms,onFiltered=%s,onTimeout=%s,optionOrder=%v)", st.Cap, fcodeCoq(st), slow,
+			tmoTicks[st.Tmo]*int(tickDur.Milliseconds()), cb(st.OnF, st.CbF), cb(st.OnT, st.CbT), optOrder(st))
 	case opPub:
 		return fmt.Sprintf("Publish(%d)", st.M)
 	case opRecv:
@@ -264,7 +268,7 @@ func stimOnlyCoq(sc Script) string {
 	for _, st := range sc.Stims {
 		switch st.Op {
 		case opSub:
-			items = append(items, fmt.Sprintf("XSub %d %s %s %s %s", st.Cap, fcodeCoq(st), cw.Z(tmoTicks[st.Tmo]), cw.B(st.OnF), cw.B(st.OnT)))
+			items = append(items, fmt.Sprintf("XSub %d %s", st.Cap, optsCoq(st)))
 		case opPub:
 			items = append(items, fmt.Sprintf("XPub %d []", st.M))
 		case opCloseSub:
